@@ -8,7 +8,9 @@ must stay   behaviour-preserving rewrites of the files the property is anchored 
 silent      must produce the same verdict as the unchanged tree: (a) every line shifted (a comment block inserted
             after the module docstring), (b) the whole module re-emitted by ast.unparse (comments gone, quotes,
             parentheses and line breaks normalised), (c) every function-local renamed, (d) the arms of every if/else swapped
-            under a negated test.  An alarm here means a rule matches text or positions.
+            under a negated test, (e) the rewrites of selftest/variants.py (logging inserted, comparisons flipped,
+            returns through a temporary, else after a terminating arm, annotations).  An alarm here means a rule
+            matches text or positions.
 
 Results go to the evidence file (coverage.selftest); they never decide the exit status.
 """
@@ -182,7 +184,8 @@ def run_selftest(pid, chk, seed=0):
         if not os.path.exists(path):
             continue
         src = open(path).read()
-        for name, fn in (("shifted-lines", _shift_lines), ("re-emitted-by-ast.unparse", _reemit), ("locals-renamed", _rename_locals), ("if-else-arms-swapped", _invert_ifs)):
+        from . import variants
+        for name, fn in (("shifted-lines", _shift_lines), ("re-emitted-by-ast.unparse", _reemit), ("locals-renamed", _rename_locals), ("if-else-arms-swapped", _invert_ifs)) + variants.EXTRA:
             try:
                 new = fn(src)
                 compile(new, rel, "exec")
@@ -191,8 +194,8 @@ def run_selftest(pid, chk, seed=0):
             res["variants"] += 1
             v, keys, c2 = _verdict(pid, {rel: new})
             same = v == base_v and keys == base_keys and sorted(o["key"] for o in c2.obligations) == base_ob
-            if name == "if-else-arms-swapped":
-                same = v == base_v
+            if name == "if-else-arms-swapped" or name in dict(variants.EXTRA):
+                same = v == base_v and (v != "violation" or keys == base_keys)
             if name == "locals-renamed":
                 # instance keys may legitimately mention a local's name; what matters is the verdict
                 same = v == base_v and len(c2.obligations) == len(base_ob) if v != "refused" else False
